@@ -76,6 +76,8 @@ Proof.
     match goal with |- s_reent (match alookup sid (s_spawned ?x) with _ => _ end) = true => assert (Hx : s_reent x = true) by (apply IH; cbn; rewrite H; reflexivity); destruct (alookup sid (s_spawned x)); exact Hx end.
   - unfold do_spawn. destruct (ahas sid (s_spawned s)); cbn; [exact H|rewrite H; reflexivity].
   - exact H.
+  - destruct (alookup2 name t (s_named s)) as [[l|]|] eqn:E; try exact H.
+    unfold end_named, begin_named. cbn [slog leave s_reent set_named]. apply IH. rewrite E. cbn. rewrite H. reflexivity.
 Qed.
 Lemma reent_false f cs s : s_reent (run_calls f cs s) = false -> s_reent s = false.
 Proof. intros H. destruct (s_reent s) eqn:E; [|reflexivity]. rewrite (reent_mono f cs s E) in H. discriminate. Qed.
@@ -314,7 +316,15 @@ Proof.
       + intros k Hk. specialize (J2 k Hk). destruct k as [t'|n' t'|sid']; unfold claims, stored in *; cbn [set_spawned s_sys s_named s_spawned s_log]; try exact J2.
         destruct (N.eq_dec sid' sid) as [->|Hne]; [rewrite alookup_aremove_same; exact I|rewrite alookup_aremove_other by exact Hne; exact J2].
       + exact J3.
-      + intros sid0 Hs. apply J4. unfold ahas in *. destruct (N.eq_dec sid0 sid) as [->|Hne]; [rewrite alookup_aremove_same in Hs; discriminate|rewrite alookup_aremove_other in Hs by exact Hne; exact Hs]. }
+      + intros sid0 Hs. apply J4. unfold ahas in *. destruct (N.eq_dec sid0 sid) as [->|Hne]; [rewrite alookup_aremove_same in Hs; discriminate|rewrite alookup_aremove_other in Hs by exact Hne; exact Hs].
+    - (* named_syscall_direct *)
+      destruct (alookup2 name t (s_named s)) as [[l|]|] eqn:E.
+      + apply (bracket_good (SkNamed name t) (named_local name t s) _ _ (run_calls f nested) s (bracket_named id name t v s)); try assumption; try exact I.
+        * intros Hnb. apply (j_store s HJ (SkNamed name t) Hnb).
+        * intros s0. apply IH.
+        * intros s0. apply reent_mono.
+      + split; [apply J_ret; exact HJ|]. split; [reflexivity|]. intros k Hk. cbn [slog s_log]. apply count_snoc_ret.
+      + split; [apply J_ret; exact HJ|]. split; [reflexivity|]. intros k Hk. cbn [slog s_log]. apply count_snoc_ret. }
   eapply good_trans; [exact H1|]. apply IH; [exact (proj1 H1)|exact Hfl].
 Qed.
 
@@ -350,7 +360,10 @@ Proof.
       assert (Hl : forall (s0 : sst) x, s_log (match alookup sid (s_spawned s0) with Some _ => set_spawned x s0 | None => s0 end) = s_log s0) by (intros s0 x; destruct (alookup sid (s_spawned s0)); reflexivity).
       rewrite Hl, Hm. unfold begin_spawned. cbn [slog enter set_spawned s_log]. eexists. rewrite <- !app_assoc. reflexivity.
     - unfold do_spawn. destruct (ahas sid (s_spawned s)); exists []; cbn; now rewrite app_nil_r.
-    - exists []. cbn. now rewrite app_nil_r. }
+    - exists []. cbn. now rewrite app_nil_r.
+    - destruct (alookup2 name t (s_named s)) as [[l|]|] eqn:E; try (eexists; reflexivity).
+      destruct (IH nested (begin_named id name t v s)) as (m & Hm). unfold end_named. cbn [slog leave set_named s_log]. rewrite Hm. unfold begin_named. cbn [slog enter s_log].
+      rewrite E. cbn [set_named s_log]. eexists. rewrite <- !app_assoc. reflexivity. }
   destruct H1 as (m1 & H1). destruct (IH rest s1) as (m2 & H2). exists (m1 ++ m2). rewrite H2, H1, app_assoc. reflexivity.
 Qed.
 
@@ -370,3 +383,13 @@ Theorem spawned_missing_or_running_is_err f id sid v nested s :
   (alookup sid (s_spawned s) = None \/ exists t, alookup sid (s_spawned s) = Some (t, None)) ->
   run_calls (S (S f)) [KSpawned id sid v nested] s = slog (SRet id None) s.
 Proof. intros [H|(t & H)]; cbn [run_calls]; rewrite H; reflexivity. Qed.
+
+(* named_syscall_direct: an error, and nothing runs, unless the named node exists and currently holds its system; then it
+   is exactly named_syscall under that key *)
+Theorem named_direct_missing_or_running_is_err f id name t v nested s :
+  (alookup2 name t (s_named s) = None \/ alookup2 name t (s_named s) = Some None) ->
+  run_calls (S (S f)) [KNamedDirect id name t v nested] s = slog (SRet id None) s.
+Proof. intros [H|H]; cbn [run_calls]; rewrite H; reflexivity. Qed.
+Theorem named_direct_is_named_when_present f id name t v nested rest s l : alookup2 name t (s_named s) = Some (Some l) ->
+  run_calls (S f) (KNamedDirect id name t v nested :: rest) s = run_calls (S f) (KNamed id name t v nested :: rest) s.
+Proof. intros H. cbn [run_calls]. rewrite H. reflexivity. Qed.
